@@ -1,4 +1,590 @@
-//! C08: harness domain (stub).
+//! C08: control messages parse and serialise losslessly with the protocol's numbering.
+//!
+//! Drives the real `ControlMessage::from_term / to_term / into_term` and `ControlMessageType::from_u8`:
+//!   T c08rt <term>            from_term, then to_term and into_term of the result (model: Impl/Control.lean over the
+//!                             table regenerated from control.rs)
+//!   T c08ser <msg>            to_term / into_term of a directly constructed message
+//!   T c08wire <msg>           to_term -> erltf::encode -> erltf::decode -> from_term (model: codec model in between)
+//!   T c08row <Variant>        tag and element order observed from to_term / into_term of a marker message
+//!   T c08try <n>              ControlMessageType::from_u8(n) and as_u8 of the result
+//!   P c08prop <term> <result> the property on that observation, judged by Spec/Control.lean (protocol table)
+//!   P c08num <Variant> ..     observed tag number / element order against the protocol table
+//!   P c08wireprop <msg> <res> a structured message after the wire is the same message
+//!   P c08idprop <id> <term>   the serialised unlink message carries the id
+//! Failure classes for the defects of /repo: kf-c08-alias-send-tt-tag, kf-c08-unlink-id-bigint, kf-c08-unlink-id-sign.
+use crate::canon::term_text;
+use crate::rng::Rng;
+use crate::tgen::{gen_pid, gen_term, gen_u64, Cfg};
 use crate::Ctx;
+use edp_client::control::{ControlMessage, ControlMessageType};
+use erltf::types::{Atom, BigInt, ExternalPid};
+use erltf::OwnedTerm;
+use std::panic::{catch_unwind, AssertUnwindSafe};
 
-pub fn run(_ctx: &mut Ctx) {}
+pub const KF_ALIAS: &str = "kf-c08-alias-send-tt-tag";
+pub const KF_BIGINT: &str = "kf-c08-unlink-id-bigint";
+pub const KF_SIGN: &str = "kf-c08-unlink-id-sign";
+
+#[derive(Clone)]
+pub enum FV {
+    T(OwnedTerm),
+    U(u64),
+}
+
+impl From<FV> for OwnedTerm {
+    fn from(v: FV) -> OwnedTerm {
+        match v {
+            FV::T(t) => t,
+            FV::U(n) => OwnedTerm::Integer(n as i64),
+        }
+    }
+}
+
+impl From<FV> for u64 {
+    fn from(v: FV) -> u64 {
+        match v {
+            FV::U(n) => n,
+            FV::T(_) => 0,
+        }
+    }
+}
+
+trait FieldText {
+    fn ft(&self) -> String;
+}
+impl FieldText for OwnedTerm {
+    fn ft(&self) -> String {
+        term_text(self)
+    }
+}
+impl FieldText for u64 {
+    fn ft(&self) -> String {
+        format!("#{}", self)
+    }
+}
+
+macro_rules! variants {
+    ($( $V:ident { $($f:ident),* } ),* $(,)?) => {
+        /// every structured variant of `ControlMessage` with its field names
+        pub const VARIANTS: &[(&str, &[&str])] = &[ $( (stringify!($V), &[ $(stringify!($f)),* ]) ),* ];
+
+        fn msg_fields(m: &ControlMessage) -> Option<(&'static str, Vec<(&'static str, String)>)> {
+            #[allow(unreachable_patterns)]
+            match m {
+                $( ControlMessage::$V { $($f),* } =>
+                    Some((stringify!($V), vec![ $( (stringify!($f), FieldText::ft($f)) ),* ])), )*
+                _ => None,
+            }
+        }
+
+        fn build(v: &str, get: &mut dyn FnMut(&str) -> FV) -> Option<ControlMessage> {
+            $( if v == stringify!($V) {
+                return Some(ControlMessage::$V { $( $f: get(stringify!($f)).into() ),* });
+            } )*
+            None
+        }
+    }
+}
+
+variants! {
+    Link { from_pid, to_pid },
+    Send { cookie, to_pid },
+    Exit { from_pid, to_pid, reason },
+    UnlinkId { id, from_pid, to_pid },
+    UnlinkIdAck { id, from_pid, to_pid },
+    RegSend { from_pid, cookie, to_name },
+    MonitorP { from_pid, to_proc, reference },
+    DemonitorP { from_pid, to_proc, reference },
+    MonitorPExit { from_proc, to_pid, reference, reason },
+    SpawnRequest { req_id, from, group_leader, mfa, arg_list, opt_list },
+    SpawnReply { req_id, to, flags, result },
+    AliasSend { from_pid, alias },
+    Unlink { from_pid, to_pid },
+    NodeLink {},
+    GroupLeader { from_pid, to_pid },
+    Exit2 { from_pid, to_pid, reason },
+    SendSender { from_pid, to_pid },
+    PayloadExit { from_pid, to_pid },
+    PayloadExit2 { from_pid, to_pid },
+    PayloadMonitorPExit { from_proc, to_pid, reference },
+    SendTt { cookie, to_pid, trace_token },
+    ExitTt { from_pid, to_pid, trace_token, reason },
+    RegSendTt { from_pid, cookie, to_name, trace_token },
+    Exit2Tt { from_pid, to_pid, trace_token, reason },
+    SendSenderTt { from_pid, to_pid, trace_token },
+    PayloadExitTt { from_pid, to_pid, trace_token },
+    PayloadExit2Tt { from_pid, to_pid, trace_token },
+    SpawnRequestTt { req_id, from, group_leader, mfa, arg_list, opt_list, trace_token },
+    SpawnReplyTt { req_id, to, flags, result, trace_token },
+    AliasSendTt { from_pid, alias, trace_token },
+}
+
+fn is_id_field(f: &str) -> bool {
+    f == "id"
+}
+
+/// `Variant{a=T;b=T}` with fields sorted by name, ids as `#n`; `Generic:<ty>{T;T}` (Lean: `Msg.text`)
+pub fn msg_text(m: &ControlMessage) -> String {
+    if let ControlMessage::Generic { message_type, fields } = m {
+        let fs: Vec<String> = fields.iter().map(term_text).collect();
+        return format!("Generic:{}{{{}}}", message_type, fs.join(";"));
+    }
+    match msg_fields(m) {
+        Some((v, mut fs)) => {
+            fs.sort_by(|a, b| a.0.cmp(b.0));
+            let fs: Vec<String> = fs.iter().map(|(f, t)| format!("{}={}", f, t)).collect();
+            format!("{}{{{}}}", v, fs.join(";"))
+        }
+        None => "Unknown{}".to_string(),
+    }
+}
+
+fn opt_text(r: std::thread::Result<OwnedTerm>) -> String {
+    match r {
+        Ok(t) => term_text(&t),
+        Err(_) => "panic".to_string(),
+    }
+}
+
+fn from_term(t: &OwnedTerm) -> Result<ControlMessage, &'static str> {
+    match catch_unwind(AssertUnwindSafe(|| ControlMessage::from_term(t))) {
+        Ok(Ok(m)) => Ok(m),
+        Ok(Err(_)) => Err("err"),
+        Err(_) => Err("panic"),
+    }
+}
+
+/// from_term, then both serialisers of the result
+fn rt_result(t: &OwnedTerm) -> (String, Option<ControlMessage>) {
+    match from_term(t) {
+        Ok(m) => {
+            let to = opt_text(catch_unwind(AssertUnwindSafe(|| m.to_term())));
+            let mc = m.clone();
+            let into = opt_text(catch_unwind(AssertUnwindSafe(move || mc.into_term())));
+            // `=` abbreviates "the same text as the input" / "the same text as to_term" (keeps the ops file small)
+            let into_s = if into == to { "=".to_string() } else { into };
+            let to_s = if to == term_text(t) { "=".to_string() } else { to };
+            (format!("ok {} {} {}", msg_text(&m), to_s, into_s), Some(m))
+        }
+        Err(e) => (e.to_string(), None),
+    }
+}
+
+fn parse_only(t: &OwnedTerm) -> String {
+    match from_term(t) {
+        Ok(m) => format!("ok {}", msg_text(&m)),
+        Err(e) => e.to_string(),
+    }
+}
+
+fn atom(s: &str) -> OwnedTerm {
+    OwnedTerm::Atom(Atom::new(s))
+}
+
+fn big(neg: bool, d: &[u8]) -> OwnedTerm {
+    OwnedTerm::BigInt(BigInt::new(neg, d.to_vec()))
+}
+
+fn big_of_u64(n: u64) -> OwnedTerm {
+    let mut d = n.to_le_bytes().to_vec();
+    while d.len() > 1 && *d.last().unwrap() == 0 {
+        d.pop();
+    }
+    big(false, &d)
+}
+
+fn a_pid() -> OwnedTerm {
+    OwnedTerm::Pid(ExternalPid::new(Atom::new("a"), 1, 2, 3))
+}
+
+/// small element alphabet (exhaustive enumeration)
+fn small_alphabet() -> Vec<OwnedTerm> {
+    vec![
+        OwnedTerm::Integer(0),
+        OwnedTerm::Integer(-1),
+        atom("a"),
+        OwnedTerm::Nil,
+        big(false, &[0, 0, 0, 0, 1]),
+        a_pid(),
+    ]
+}
+
+/// wider element alphabet: integer boundaries around the id conversions, bignums around 2^63 / 2^64
+fn wide_alphabet() -> Vec<OwnedTerm> {
+    let mut v = small_alphabet();
+    for i in [1i64, 7, 255, 256, 2147483647, 2147483648, 4294967296, 1 << 40, i64::MAX, i64::MIN, -2147483648] {
+        v.push(OwnedTerm::Integer(i));
+    }
+    v.push(big_of_u64(5));
+    v.push(big_of_u64(1 << 31));
+    v.push(big_of_u64(1 << 63));
+    v.push(big_of_u64(u64::MAX));
+    v.push(big(false, &[0, 0, 0, 0, 0, 0, 0, 0, 1])); // 2^64
+    v.push(big(true, &[1])); // -1
+    v.push(big(false, &[7, 0, 0])); // 7 with non-minimal digits
+    v.push(OwnedTerm::Float(1.0));
+    v.push(OwnedTerm::Binary(vec![1, 2, 3]));
+    v.push(OwnedTerm::String("hi".to_string()));
+    v.push(OwnedTerm::Tuple(vec![atom("m"), atom("f"), OwnedTerm::Integer(2)]));
+    v.push(OwnedTerm::List(vec![OwnedTerm::Integer(1), atom("b")]));
+    v
+}
+
+/// value of a non-negative bignum below 2^64
+fn big_u64(t: &OwnedTerm) -> Option<u64> {
+    if let OwnedTerm::BigInt(b) = t {
+        if b.sign == erltf::types::Sign::Negative && b.digits.iter().any(|x| *x != 0) {
+            return None;
+        }
+        if b.digits.iter().skip(8).any(|x| *x != 0) {
+            return None;
+        }
+        let mut n: u64 = 0;
+        for (i, x) in b.digits.iter().take(8).enumerate() {
+            n |= (*x as u64) << (8 * i);
+        }
+        return Some(n);
+    }
+    None
+}
+
+/// failure class of a `c08prop` observation: the known defects have their own classes
+fn class_of(t: &OwnedTerm) -> &'static str {
+    if let OwnedTerm::Tuple(els) = t {
+        if let Some(OwnedTerm::Integer(h)) = els.first() {
+            if (*h == 35 || *h == 36) && els.len() == 4 && big_u64(&els[1]).is_some() {
+                return KF_BIGINT;
+            }
+            if *h == 38 && els.len() == 4 {
+                return KF_ALIAS;
+            }
+        }
+    }
+    "gen"
+}
+
+fn one_term(ctx: &mut Ctx, t: &OwnedTerm) {
+    let tt = term_text(t);
+    let (res, m) = rt_result(t);
+    ctx.tie("gen", &format!("c08rt {}", tt), &res);
+    ctx.prop(class_of(t), &format!("c08prop {} {}", tt, res), "ok");
+    match (&m, res.as_str()) {
+        (Some(ControlMessage::Generic { .. }), _) => ctx.count("parsed_generic"),
+        (Some(_), _) => ctx.count("parsed_structured"),
+        (None, "err") => ctx.count("parse_err"),
+        (None, _) => ctx.count("parse_panic"),
+    }
+    if let OwnedTerm::Tuple(els) = t {
+        ctx.count(&format!("arity_{}", els.len().min(11)));
+    } else {
+        ctx.count("non_tuple");
+    }
+}
+
+fn tuple_of(head: OwnedTerm, rest: &[OwnedTerm]) -> OwnedTerm {
+    let mut v = vec![head];
+    v.extend_from_slice(rest);
+    OwnedTerm::Tuple(v)
+}
+
+/// all tuples with head 0..255 and arity 1..3 over the small alphabet; bad heads; non-tuples
+fn exhaustive(ctx: &mut Ctx) {
+    let a = small_alphabet();
+    for h in 0..=255i64 {
+        one_term(ctx, &tuple_of(OwnedTerm::Integer(h), &[]));
+        for x in &a {
+            one_term(ctx, &tuple_of(OwnedTerm::Integer(h), &[x.clone()]));
+            for y in &a {
+                one_term(ctx, &tuple_of(OwnedTerm::Integer(h), &[x.clone(), y.clone()]));
+            }
+        }
+    }
+    ctx.add("exhaustive", 1);
+    let bad_heads = vec![
+        OwnedTerm::Integer(256),
+        OwnedTerm::Integer(-1),
+        OwnedTerm::Integer(i64::MAX),
+        OwnedTerm::Integer(i64::MIN),
+        OwnedTerm::Integer(1 << 32 | 1),
+        atom("a"),
+        atom("link"),
+        big_of_u64(5),
+        big_of_u64(35),
+        OwnedTerm::Float(1.0),
+        OwnedTerm::Nil,
+        OwnedTerm::Binary(vec![1]),
+        OwnedTerm::Tuple(vec![OwnedTerm::Integer(1)]),
+        a_pid(),
+    ];
+    for h in &bad_heads {
+        one_term(ctx, &tuple_of(h.clone(), &[]));
+        for x in &a {
+            one_term(ctx, &tuple_of(h.clone(), &[x.clone()]));
+            for y in &a {
+                one_term(ctx, &tuple_of(h.clone(), &[x.clone(), y.clone()]));
+                one_term(ctx, &tuple_of(h.clone(), &[x.clone(), y.clone(), x.clone()]));
+            }
+        }
+    }
+    one_term(ctx, &OwnedTerm::Tuple(vec![]));
+    one_term(ctx, &OwnedTerm::List(vec![OwnedTerm::Integer(1), atom("a"), atom("b")]));
+    one_term(ctx, &OwnedTerm::Nil);
+    one_term(ctx, &OwnedTerm::Integer(1));
+    one_term(ctx, &atom("a"));
+    one_term(ctx, &OwnedTerm::ImproperList {
+        elements: vec![OwnedTerm::Integer(1), atom("a")],
+        tail: Box::new(atom("b")),
+    });
+}
+
+/// arity 4..10 for every head 0..255, elements from the wide alphabet; the id position of 35/36 over all of it
+fn wider(ctx: &mut Ctx) {
+    let b = wide_alphabet();
+    let per = ctx.n(2, 5);
+    for h in 0..=255i64 {
+        for arity in 4..=10usize {
+            for _ in 0..per {
+                let rest: Vec<OwnedTerm> = (0..arity - 1).map(|_| ctx.rng.pick(&b).clone()).collect();
+                one_term(ctx, &tuple_of(OwnedTerm::Integer(h), &rest));
+            }
+        }
+    }
+    // every tag the protocol or the library knows, at arities around its own, with richer elements
+    let cfg = Cfg { max_depth: 2, huge: false, ..Cfg::default() };
+    let extra = ctx.n(6, 12);
+    for h in (1..=40i64).chain([255, 0]) {
+        for arity in 1..=9usize {
+            for _ in 0..extra {
+                let rest: Vec<OwnedTerm> = (0..arity - 1)
+                    .map(|_| if ctx.rng.chance(1, 2) { ctx.rng.pick(&b).clone() } else { gen_term(&mut ctx.rng, &cfg, 1) })
+                    .collect();
+                one_term(ctx, &tuple_of(OwnedTerm::Integer(h), &rest));
+            }
+        }
+    }
+    for h in [35i64, 36] {
+        for id in &b {
+            one_term(ctx, &tuple_of(OwnedTerm::Integer(h), &[id.clone(), a_pid(), atom("b")]));
+            one_term(ctx, &tuple_of(OwnedTerm::Integer(h), &[a_pid(), id.clone(), atom("b")]));
+        }
+    }
+    // non-tuples from the general generator
+    let n = ctx.n(150, 800);
+    let cfg = Cfg { max_depth: 3, huge: false, ..Cfg::default() };
+    for _ in 0..n {
+        let t = gen_term(&mut ctx.rng, &cfg, 0);
+        one_term(ctx, &t);
+    }
+}
+
+pub const ID_BOUNDS: &[u64] = &[
+    0, 1, 255, 256, (1 << 31) - 1, 1 << 31, (1 << 32) - 1, 1 << 32, 1 << 40, (1 << 63) - 1, 1 << 63, (1 << 63) + 1,
+    u64::MAX - 1, u64::MAX,
+];
+
+/// atoms, integers, pids, binaries, nil and tuples/lists of those: what control messages usually carry, and the part
+/// of the term language on which the `c08wire` tie (which goes through the codec *model*) is emitted
+fn is_plain(t: &OwnedTerm) -> bool {
+    match t {
+        OwnedTerm::Atom(a) => a.as_str().len() <= 255 && a.as_str().is_ascii(),
+        OwnedTerm::Integer(_) | OwnedTerm::Nil => true,
+        OwnedTerm::Binary(b) => b.len() < 1000,
+        OwnedTerm::Pid(p) => p.local_ext_bytes.is_none() && p.node.as_str().is_ascii() && p.node.as_str().len() <= 255,
+        OwnedTerm::Tuple(l) => l.len() <= 255 && l.iter().all(is_plain),
+        OwnedTerm::List(l) => l.iter().all(is_plain),
+        _ => false,
+    }
+}
+
+fn gen_plain(r: &mut Rng, depth: u32) -> OwnedTerm {
+    match r.below(if depth >= 2 { 5 } else { 7 }) {
+        0 => atom(*r.pick(&["ok", "normal", "kill", "noproc", "true", "", "rex", "Elixir.Foo"])),
+        1 => OwnedTerm::Integer(crate::tgen::gen_int(r)),
+        2 => OwnedTerm::Pid(ExternalPid::new(Atom::new(*r.pick(&["a@h", "rabbit@localhost"])), r.next() as u32 >> 4, r.below(9) as u32, r.next() as u32)),
+        3 => OwnedTerm::Nil,
+        4 => OwnedTerm::Binary(r.bytes(4)),
+        5 => OwnedTerm::Tuple((0..r.below(4)).map(|_| gen_plain(r, depth + 1)).collect()),
+        _ => OwnedTerm::List((0..r.range(1, 3)).map(|_| gen_plain(r, depth + 1)).collect()),
+    }
+}
+
+fn gen_field(r: &mut Rng, cfg: &Cfg, f: &str, plain: bool) -> OwnedTerm {
+    if plain {
+        return match f {
+            "from_pid" | "to_pid" | "from" | "to" | "group_leader" if r.chance(3, 4) => {
+                OwnedTerm::Pid(ExternalPid::new(Atom::new("a@h"), r.next() as u32 >> 4, 0, r.below(1 << 20) as u32))
+            }
+            _ => gen_plain(r, 0),
+        };
+    }
+    match f {
+        "from_pid" | "to_pid" | "from" | "to" | "group_leader" if r.chance(2, 3) => OwnedTerm::Pid(gen_pid(r, false)),
+        "mfa" if r.chance(2, 3) => OwnedTerm::Tuple(vec![atom("m"), atom("f"), OwnedTerm::Integer(r.below(4) as i64)]),
+        "cookie" if r.chance(1, 2) => atom(""),
+        _ => gen_term(r, cfg, 1),
+    }
+}
+
+fn wire_class(id: Option<u64>) -> &'static str {
+    match id {
+        Some(n) if n >= 1 << 63 => KF_SIGN,
+        Some(n) if n >= 1 << 31 => KF_BIGINT,
+        _ => "gen",
+    }
+}
+
+fn one_msg(ctx: &mut Ctx, m: &ControlMessage, id: Option<u64>) {
+    let mt = msg_text(m);
+    let to = catch_unwind(AssertUnwindSafe(|| m.to_term()));
+    let mc = m.clone();
+    let into = catch_unwind(AssertUnwindSafe(move || mc.into_term()));
+    let to_t = to.as_ref().ok().cloned();
+    ctx.tie("gen", &format!("c08ser {}", mt), &format!("{} {}", opt_text(to), opt_text(into)));
+    let Some(t) = to_t else {
+        ctx.fail("c08-to-term-panics", &mt);
+        return;
+    };
+    if let Some(n) = id {
+        let cls = if n >= 1 << 63 { KF_SIGN } else { "gen" };
+        ctx.prop(cls, &format!("c08idprop {} {}", n, term_text(&t)), "ok");
+    }
+    // in memory: from_term(to_term(m))
+    let (res, _) = rt_result(&t);
+    ctx.tie("gen", &format!("c08rt {}", term_text(&t)), &res);
+    let mem_cls = match id {
+        Some(n) if n >= 1 << 63 => KF_SIGN,
+        _ => "gen",
+    };
+    ctx.prop(mem_cls, &format!("c08wireprop {} {}", mt, parse_only(&t)), "ok");
+    // over the wire
+    let bytes = match catch_unwind(AssertUnwindSafe(|| erltf::encode(&t))) {
+        Ok(Ok(b)) => b,
+        _ => {
+            ctx.count("wire_encode_error");
+            return;
+        }
+    };
+    let dec = match catch_unwind(AssertUnwindSafe(|| erltf::decode(&bytes))) {
+        Ok(Ok(d)) => d,
+        _ => {
+            ctx.count("wire_decode_error");
+            ctx.fail("c08-own-decoder-rejects", &mt);
+            return;
+        }
+    };
+    ctx.add("wire_bytes", bytes.len() as u64);
+    let (res2, _) = rt_result(&dec);
+    ctx.tie("gen", &format!("c08rt {}", term_text(&dec)), &res2);
+    let after = parse_only(&dec);
+    if t.as_tuple().map(|l| l.iter().all(is_plain)).unwrap_or(false) {
+        ctx.tie("gen", &format!("c08wire {}", mt), &after);
+        ctx.count("wire_model_tie");
+    }
+    ctx.prop(wire_class(id), &format!("c08wireprop {} {}", mt, after), "ok");
+    ctx.count(if after == "err" { "wire_rejected" } else { "wire_ok" });
+}
+
+/// every structured variant with generated fields; unlink ids over the boundaries; Generic
+fn structured(ctx: &mut Ctx) {
+    let cfg = Cfg { max_depth: 2, huge: false, ..Cfg::default() };
+    let per = ctx.n(12, 60);
+    for (v, fields) in VARIANTS {
+        let has_id = fields.iter().any(|f| is_id_field(f));
+        let rounds = if has_id { per + ID_BOUNDS.len() } else { per };
+        for k in 0..rounds {
+            let id = if !has_id {
+                None
+            } else if k < ID_BOUNDS.len() {
+                Some(ID_BOUNDS[k])
+            } else {
+                Some(gen_u64(&mut ctx.rng))
+            };
+            let mut vals: Vec<(String, FV)> = vec![];
+            let plain = k % 2 == 0;
+            for f in fields.iter() {
+                let fv = if is_id_field(f) { FV::U(id.unwrap()) } else { FV::T(gen_field(&mut ctx.rng, &cfg, f, plain)) };
+                vals.push((f.to_string(), fv));
+            }
+            let mut get = |f: &str| vals.iter().find(|(g, _)| g == f).map(|(_, x)| x.clone()).unwrap();
+            let Some(m) = build(v, &mut get) else { continue };
+            ctx.count(&format!("variant_{}", v));
+            one_msg(ctx, &m, id);
+        }
+    }
+    // Generic messages with a type the library has no arm for (these come back as Generic)
+    let n = ctx.n(40, 200);
+    for _ in 0..n {
+        let ty = *ctx.rng.pick(&[0u8, 9, 10, 11, 14, 15, 17, 37, 39, 40, 100, 200, 255]);
+        let k = ctx.rng.below(6) as usize;
+        let plain = ctx.rng.chance(1, 2);
+        let fields: Vec<OwnedTerm> =
+            (0..k).map(|_| if plain { gen_plain(&mut ctx.rng, 0) } else { gen_term(&mut ctx.rng, &cfg, 1) }).collect();
+        let m = ControlMessage::Generic { message_type: ty, fields };
+        ctx.count("variant_Generic");
+        one_msg(ctx, &m, None);
+    }
+}
+
+/// tag numbers and element order as observed on the implementation, against the table and the protocol
+fn numbering(ctx: &mut Ctx) {
+    for n in 0..=255u8 {
+        let r = match ControlMessageType::from_u8(n) {
+            Some(t) => format!("Some({:?})={}", t, t.as_u8()),
+            None => "None".to_string(),
+        };
+        ctx.tie("gen", &format!("c08try {}", n), &r);
+    }
+    for (v, _fields) in VARIANTS {
+        let mut get = |f: &str| if is_id_field(f) { FV::U(7) } else { FV::T(atom(f)) };
+        let Some(m) = build(v, &mut get) else { continue };
+        let observe = |t: &OwnedTerm| -> Option<(i64, Vec<String>, Vec<String>)> {
+            let els = t.as_tuple()?;
+            let tag = els.first()?.as_integer()?;
+            let mut plain = vec![];
+            let mut marked = vec![];
+            for e in &els[1..] {
+                match e {
+                    OwnedTerm::Atom(a) => {
+                        plain.push(a.as_str().to_string());
+                        marked.push(a.as_str().to_string());
+                    }
+                    OwnedTerm::Integer(7) => {
+                        plain.push("id".to_string());
+                        marked.push("#id".to_string());
+                    }
+                    _ => return None,
+                }
+            }
+            Some((tag, plain, marked))
+        };
+        let to = m.to_term();
+        let into = m.clone().into_term();
+        match (observe(&to), observe(&into)) {
+            (Some((tag, plain, marked)), Some((tag2, _, marked2))) => {
+                let row = |tag: i64, fs: &[String]| {
+                    let mut s = format!("{} ", tag);
+                    for f in fs {
+                        s.push(',');
+                        s.push_str(f);
+                    }
+                    if fs.is_empty() {
+                        s.push(',');
+                    }
+                    s
+                };
+                // Lean prints "," ++ names joined by ","; an empty list is a single ","
+                ctx.tie("gen", &format!("c08row {}", v), &format!("{} {}", row(tag, &marked), row(tag2, &marked2)));
+                let cls = if *v == "AliasSendTt" { KF_ALIAS } else { "gen" };
+                ctx.prop(cls, &format!("c08num {} {} {}", v, tag, if plain.is_empty() { ",".to_string() } else { plain.join(",") }), "ok");
+            }
+            _ => ctx.fail("c08-marker-message-unreadable", v),
+        }
+    }
+}
+
+pub fn run(ctx: &mut Ctx) {
+    numbering(ctx);
+    exhaustive(ctx);
+    wider(ctx);
+    structured(ctx);
+}
